@@ -424,7 +424,9 @@ func e2(engine string) {
 		for _, method := range []string{"POST", "PUT", "PATCH", "DELETE", "GET"} {
 			for _, query := range []string{"", "a=1&b=%20x", "x=%2F..%2F&&="} {
 				for _, prefix := range []string{"/olla/proxy", "/olla/openai", "/olla/openai-compatible"} {
-					for _, rest := range []string{"/v1/chat/completions", "/v1/embeddings"} {
+					// remainders that repeat route prefixes and the endpoint's base path (an olla in front of an olla,
+					// a backend whose own paths start like a prefix): the route prefix is removed exactly once
+					for _, rest := range []string{"/v1/chat/completions", "/v1/embeddings", "/olla/openai/v1/chat/completions", "/olla/proxy/v1/x", "/olla", "/openai/v1/models", "/proxy/x", "/base/v1/x", "/olla/olla/x"} {
 						b := small
 						if method == "GET" || method == "DELETE" {
 							b = nil
